@@ -29,6 +29,28 @@ int handle_cloexec(int handle, bool enable)
   return 0;
 }
 
+int handle_move_above_std(int *handle)
+{
+  ASSERT(handle);
+
+  if (*handle == HANDLE_INVALID || *handle > STDERR_FILENO) {
+    return 0;
+  }
+
+  // The parent has closed one or more of its standard streams so a descriptor
+  // we created landed on 0, 1 or 2. Those numbers are overwritten in the child
+  // when it sets up its own standard streams so we move away from them.
+  int r = fcntl(*handle, F_DUPFD_CLOEXEC, STDERR_FILENO + 1);
+  if (r < 0) {
+    return -errno;
+  }
+
+  handle_destroy(*handle);
+  *handle = r;
+
+  return 0;
+}
+
 int handle_destroy(int handle)
 {
   if (handle == HANDLE_INVALID) {
